@@ -333,28 +333,33 @@ def parallel_run_cases(exe, cases, workdir, tag, shards=16, timeout=900):
         cp = os.path.join(workdir, '%s.%d.cases' % (tag, i))
         with open(cp, 'w') as f:
             f.write('\n'.join(part) + '\n')
+        # outputs go to files, not pipes: a full pipe would serialise the shards
+        fo = open(cp + '.out', 'wb')
+        fe = open(cp + '.err', 'wb')
         p = subprocess.Popen(['bash', '-c', 'ulimit -s unlimited 2>/dev/null; exec "$0" "$1"', exe, cp],
-                             stdout=subprocess.PIPE, stderr=subprocess.PIPE, env=e)
-        procs.append((p, len(part), cp))
+                             stdout=fo, stderr=fe, env=e)
+        procs.append((p, len(part), cp, fo, fe))
     lines = []
     rc = 0
     err = ''
     deadline = time.time() + timeout
-    for p, cnt, cp in procs:
+    for p, cnt, cp, fo, fe in procs:
         try:
-            out, er = p.communicate(timeout=max(1, deadline - time.time()))
+            p.wait(timeout=max(1, deadline - time.time()))
         except subprocess.TimeoutExpired:
             p.kill()
-            out, er = p.communicate()
+            p.wait()
             rc = 124
             err += 'TIMEOUT in shard %s\n' % cp
-        ls = out.decode('latin-1').split('\n')
+        fo.close()
+        fe.close()
+        ls = open(cp + '.out', 'rb').read().decode('latin-1').split('\n')
         if ls and ls[-1] == '':
             ls.pop()
         if p.returncode not in (0, None) and rc == 0:
             rc = p.returncode
         if p.returncode != 0:
-            err += er.decode('latin-1')[-3000:]
+            err += open(cp + '.err', 'rb').read().decode('latin-1')[-3000:]
         # pad so that indices stay aligned even after a crash
         if len(ls) < cnt:
             ls += ['<NO-OUTPUT>'] * (cnt - len(ls))
